@@ -127,6 +127,11 @@ func windowOK(w gbn.VerifWindowState) string {
 type synCase struct {
 	N     int    `json:"n"`
 	After string `json:"after"` // what the raw client sends after the handshake
+	// Seq says where the SYN under test sits among the handshake packets the
+	// raw client sends before its SYNACK: "only" (SYN n), "second" (SYN 20,
+	// SYN n: arrives while the server waits for the SYNACK), "first" (SYN n,
+	// SYN 20), "after_timeout" (SYN 20, wait past the handshake timeout, SYN n).
+	Seq string `json:"seq,omitempty"`
 }
 
 func runC07Syn(t *testing.T, c synCase) (violation string) {
@@ -148,9 +153,27 @@ func runC07Syn(t *testing.T, c synCase) (violation string) {
 					gbn.WithHandshakeTimeout(100*time.Millisecond)))
 			rc <- res{conn, err}
 		}()
-		peer.send(&gbn.PacketSYN{N: uint8(c.N)})
+		lastN := c.N
+		switch c.Seq {
+		case "second":
+			peer.send(&gbn.PacketSYN{N: 20})
+			peer.recv(time.Second)
+			peer.send(&gbn.PacketSYN{N: uint8(c.N)})
+		case "first":
+			peer.send(&gbn.PacketSYN{N: uint8(c.N)})
+			peer.recv(time.Second)
+			peer.send(&gbn.PacketSYN{N: 20})
+			lastN = 20
+		case "after_timeout":
+			peer.send(&gbn.PacketSYN{N: 20})
+			peer.recv(time.Second)
+			time.Sleep(150 * time.Millisecond)
+			peer.send(&gbn.PacketSYN{N: uint8(c.N)})
+		default:
+			peer.send(&gbn.PacketSYN{N: uint8(c.N)})
+		}
 		reply := peer.recv(time.Second)
-		if syn, ok := reply.(*gbn.PacketSYN); ok && int(syn.N) != c.N {
+		if syn, ok := reply.(*gbn.PacketSYN); ok && int(syn.N) != lastN && c.Seq == "" {
 			violation = fmt.Sprintf("server answered SYN N=%d with SYN N=%d", c.N, syn.N)
 		}
 		peer.send(&gbn.PacketSYNACK{})
@@ -176,8 +199,8 @@ func runC07Syn(t *testing.T, c synCase) (violation string) {
 			cancel()
 			return
 		}
-		if int(conn.VerifWindow().N) != c.N {
-			violation = fmt.Sprintf("server uses n=%d after SYN N=%d", conn.VerifWindow().N, c.N)
+		if n := int(conn.VerifWindow().N); n != c.N && n != 20 {
+			violation = fmt.Sprintf("server uses n=%d, the SYNs carried %d and 20", n, c.N)
 		}
 		// a short honest-looking exchange
 		var wg sync.WaitGroup
@@ -241,14 +264,19 @@ func TestC07SynValues(t *testing.T) {
 	}
 	nviol := 0
 	for n := 0; n < 256; n++ {
-		for _, after := range []string{"data", "acks", "syn"} {
-			c := synCase{N: n, After: after}
-			rec.Current("syn", c)
-			v := runC07Syn(t, c)
-			rec.Case(n == 0 || n >= 254 || after != "data", fmt.Sprintf("%+v", c), "syn_value")
-			if v != "" && nviol < 5 {
-				nviol++
-				rec.Violation(v, "syn", c)
+		for _, seq := range []string{"", "second", "first", "after_timeout"} {
+			for _, after := range []string{"data", "acks", "syn"} {
+				if seq != "" && after != "data" {
+					continue
+				}
+				c := synCase{N: n, After: after, Seq: seq}
+				rec.Current("syn", c)
+				v := runC07Syn(t, c)
+				rec.Case(n == 0 || n >= 254 || after != "data" || seq != "", fmt.Sprintf("%+v", c), "syn_value_"+seq)
+				if v != "" && nviol < 5 {
+					nviol++
+					rec.Violation(v, "syn", c)
+				}
 			}
 		}
 	}
